@@ -19,7 +19,7 @@ namespace PubModel.Sni
 inductive Res
   | ok (frame : Nat)      -- completed with the decoded body of frame number `frame`
   | okNoReply             -- completed "successfully" without any reply (pinned-tree defect)
-  | err (kind : Nat)      -- 1 already-shutdown, 2 send error, 3 EOF sweep, 4 body decode error, 5 mistyped reply
+  | err (kind : Nat)      -- 1 already-shutdown, 2 send error, 3 EOF sweep, 4 body decode error, 5 mistyped reply, 6 context done
   deriving DecidableEq, Repr
 
 /-- where a caller goroutine is -/
@@ -35,6 +35,7 @@ inductive CS
 structure Caller where
   typ : Nat
   isShutdown : Bool := false
+  cancellable : Bool := false     -- the call's context can end (deadline or cancellation); tunnel operations use context.TODO
   st : CS := .idle
   assigned : Option Nat := none   -- call id given by the serve loop (history variable)
   deriving DecidableEq, Repr
@@ -172,6 +173,11 @@ inductive Step (fx : Bool) (cap : Nat) : St → St → Prop
   | callAbort (s : St) (i : Nat) (c : Caller) (h : s.callers[i]? = some c) (hw : isWaiting c.st = true)
       (hfx : fx = true) (hd : s.serve = .done) :
       Step fx cap s (s.setSt i (fun c => { c with st := .done (.err 1) }))
+  /-- asyncCall / call: `<-ctx.Done()` — a caller whose context ends stops waiting (before the enqueue or after it);
+      whatever the serve loop and the reader still hold for it is dealt with by their guards -/
+  | giveUp (s : St) (i : Nat) (c : Caller) (h : s.callers[i]? = some c)
+      (hw : c.st = .checked ∨ isWaiting c.st = true) (hctx : c.cancellable = true) :
+      Step fx cap s (s.setSt i (fun c => { c with st := .done (.err 6) }))
   /-- the control connection is lost -/
   | sever (s : St) (h : s.connAlive = true) :
       Step fx cap s { s with connAlive := false }
